@@ -170,6 +170,8 @@ fn flowspec_v4_mixes() -> Vec<Vec<FlowspecV4Component>> {
 fn flowspec_v4_mixes_base() -> Vec<Vec<FlowspecV4Component>> {
     use FlowspecV4Component as C;
     vec![
+        // operands at every width boundary (1, 2, 4 and 8 octets)
+        vec![C::PacketLen(ops(&[(Op::EQ, 0), (Op::EQ, 255), (Op::EQ, 256), (Op::EQ, 65535), (Op::EQ, 65536), (Op::EQ, 0xffff_ffff), (Op::EQ, 0x1_0000_0000)]))],
         vec![C::DstPrefix(net4("10.1.0.0", 16))],
         vec![
             C::DstPrefix(net4("192.0.2.0", 24)),
@@ -222,6 +224,7 @@ fn flowspec_v6_mixes() -> Vec<Vec<FlowspecV6Component>> {
 fn flowspec_v6_mixes_base() -> Vec<Vec<FlowspecV6Component>> {
     use FlowspecV6Component as C;
     vec![
+        vec![C::FlowLabel(ops(&[(Op::EQ, 0), (Op::EQ, 255), (Op::EQ, 256), (Op::EQ, 65535), (Op::EQ, 65536), (Op::EQ, 0xf_ffff), (Op::EQ, 0xffff_ffff)]))],
         vec![C::DstPrefix { prefix: net6("2001:db8:1::", 48), offset: 0 }],
         // non-zero prefix offsets (RFC 8956 3.1): destination and source each with their own
         vec![
@@ -549,6 +552,14 @@ fn mup_samples(ipv6: bool) -> Vec<MupNlri> {
 pub fn nlri_samples(family: Family) -> Vec<Nlri> {
     match family {
         Family::IPV4 | Family::IPV4_MC => vec![
+            // every prefix length next to an octet boundary
+            Nlri::V4(net4("128.0.0.0", 1)),
+            Nlri::V4(net4("10.0.0.0", 7)),
+            Nlri::V4(net4("10.128.0.0", 9)),
+            Nlri::V4(net4("10.2.0.0", 15)),
+            Nlri::V4(net4("10.3.128.0", 17)),
+            Nlri::V4(net4("10.3.2.0", 23)),
+            Nlri::V4(net4("10.3.2.254", 31)),
             Nlri::V4(net4("0.0.0.0", 0)),
             Nlri::V4(net4("10.0.0.0", 8)),
             Nlri::V4(net4("172.16.0.0", 12)),
@@ -557,6 +568,9 @@ pub fn nlri_samples(family: Family) -> Vec<Nlri> {
             Nlri::V4(net4("203.0.113.7", 32)),
         ],
         Family::IPV6 | Family::IPV6_MC => vec![
+            Nlri::V6(net6("8000::", 1)),
+            Nlri::V6(net6("2001:db8:0:2::", 63)),
+            Nlri::V6(net6("2001:db8::2", 127)),
             Nlri::V6(net6("::", 0)),
             Nlri::V6(net6("2001:db8::", 32)),
             Nlri::V6(net6("2001:db8:1::", 48)),
@@ -565,6 +579,9 @@ pub fn nlri_samples(family: Family) -> Vec<Nlri> {
             Nlri::V6(net6("2001:db8::1", 128)),
         ],
         Family::IPV4_MPLS => vec![
+            // the smallest and the largest label value, off-octet prefix lengths
+            Nlri::LabeledV4(LabeledV4Nlri { labels: labels(&[0]), prefix: net4("10.3.2.254", 31) }),
+            Nlri::LabeledV4(LabeledV4Nlri { labels: labels(&[1_048_575]), prefix: net4("128.0.0.0", 1) }),
             Nlri::LabeledV4(LabeledV4Nlri { labels: labels(&[100]), prefix: net4("10.0.0.0", 8) }),
             Nlri::LabeledV4(LabeledV4Nlri {
                 labels: labels(&[16001, 16002]),
@@ -577,6 +594,8 @@ pub fn nlri_samples(family: Family) -> Vec<Nlri> {
             Nlri::LabeledV4(LabeledV4Nlri { labels: labels(&[3]), prefix: net4("0.0.0.0", 0) }),
         ],
         Family::IPV6_MPLS => vec![
+            Nlri::LabeledV6(LabeledV6Nlri { labels: labels(&[0]), prefix: net6("2001:db8::2", 127) }),
+            Nlri::LabeledV6(LabeledV6Nlri { labels: labels(&[1_048_575, 0]), prefix: net6("8000::", 1) }),
             Nlri::LabeledV6(LabeledV6Nlri {
                 labels: labels(&[100]),
                 prefix: net6("2001:db8::", 32),
@@ -708,6 +727,9 @@ pub fn nlri_samples(family: Family) -> Vec<Nlri> {
         Family::IPV6_MUP => mup_samples(true).into_iter().map(Nlri::Mup).collect(),
         Family::RTC => vec![
             Nlri::Rtc(RtcNlri::wildcard()),
+            Nlri::Rtc(RtcNlri { match_type: MatchType::AsWildcard { origin_as: 0 } }),
+            Nlri::Rtc(RtcNlri { match_type: MatchType::AsWildcard { origin_as: u32::MAX } }),
+            Nlri::Rtc(RtcNlri { match_type: MatchType::ExactMatch { origin_as: u32::MAX, route_target: [0xff; 8] } }),
             Nlri::Rtc(RtcNlri { match_type: MatchType::AsWildcard { origin_as: 65001 } }),
             Nlri::Rtc(RtcNlri {
                 match_type: MatchType::ExactMatch {
